@@ -573,14 +573,31 @@ static void op_solve_block(const crsd &A, const part &rp /* in block rows */, co
 }
 
 // subdomain deflation and block preconditioner (non-empty subdomains)
-static void op_solve_sdd(const crsd &A, const part &rp, const std::vector<double> &f, int ndv = 1) {
+// number of deflation vectors of rank r under a pattern: 1..3 uniform; 4: 1 + r % 3; 5: the reverse order;
+// 6: 3, 1, 3, 1, ...   (0 vectors on a rank is outside the class' contract: postprocess() calls
+// backend::lin_comb(ndv, ...), which reads c[0], *v[0] unconditionally)
+static int ndv_of(int pattern, int r, int np, int nloc) {
+    int k = pattern <= 3 ? pattern : pattern == 4 ? 1 + r % 3 : pattern == 5 ? 1 + (np - 1 - r) % 3 : (r % 2 ? 1 : 3);
+    return std::max(1, std::min(k, nloc));
+}
+// irregular partition with at least `lo` rows on every rank
+static part nonempty_part(vr::rng &g, int n, int lo) {
+    part p(NP + 1, 0); p[NP] = n;
+    int slack = n - lo * NP; if (slack < 0) return dv::random_part(g, n, NP, 0);
+    std::vector<int> c; for (int r = 1; r < NP; ++r) c.push_back(g.range(0, slack)); std::sort(c.begin(), c.end());
+    for (int r = 1; r < NP; ++r) p[r] = c[r - 1] + lo * r;
+    return p;
+}
+static void op_solve_sdd(const crsd &A, const part &rp, const std::vector<double> &f, int pattern = 1, const char *fam = "spd_m") {
     ++CASEID;
     typedef amgcl::amg<BD, amgcl::coarsening::smoothed_aggregation, amgcl::relaxation::spai0> Local;
     typedef mpi::subdomain_deflation<Local, runtime::mpi::solver::wrapper<BD>, mpi::direct::skyline_lu<double>> SDD;
     double tol = 1e-8; int maxiter = 200;
     ptree p;
-    // constant, linear and quadratic (in the local row number) deflation vectors per subdomain
+    // constant, linear and quadratic (in the local row number) deflation vectors per subdomain;
+    // num_def_vec is a per-process parameter: patterns >= 4 give every rank a different number
     int nloc = rp[R + 1] - rp[R];
+    int ndv = ndv_of(pattern, R, NP, nloc);
     std::function<double(ptrdiff_t, unsigned)> dvf = [nloc](ptrdiff_t i, unsigned j) {
         double t = nloc > 1 ? (double)i / (nloc - 1) : 0.0;
         return j == 0 ? 1.0 : (j == 1 ? t - 0.5 : (t - 0.5) * (t - 0.5));
@@ -595,7 +612,8 @@ static void op_solve_sdd(const crsd &A, const part &rp, const std::vector<double
     SDD S(comm, std::tie(s.n, s.ptr, s.col, s.val), p);
     size_t iters; double resid;
     std::tie(iters, resid) = S(fl, xl);
-    emit_solve("sdd", "subdomain_deflation/sa-spai0/bicgstab/ndv" + std::to_string(ndv), A, rp, f, xl, iters, resid, tol, maxiter, true, "spd_m");
+    static const char *PN[] = {"", "ndv1", "ndv2", "ndv3", "ndv-ascending", "ndv-descending", "ndv-alternating"};
+    emit_solve("sdd", std::string("subdomain_deflation/sa-spai0/bicgstab/") + PN[pattern], A, rp, f, xl, iters, resid, tol, maxiter, true, fam);
 }
 static void op_solve_bp(const crsd &A, const part &rp, const std::vector<double> &f) {
     ++CASEID;
@@ -755,7 +773,30 @@ static void mode_solve(uint64_t seed, bool th) {
         std::vector<double> f(n); for (auto &v : f) v = g.range(-5, 5); f[0] += 1;
         part rp = thin_part(g, n, 0);          // balanced: the subdomain methods need non-empty subdomains
         for (int ndv = 1; ndv <= 3; ++ndv) GUARD(op_solve_sdd(*A, rp, f, ndv));
+        GUARD(op_solve_sdd(*A, rp, f, 4 + k % 2));
         GUARD(op_solve_bp(*A, rp, f));
+    }
+}
+
+// subdomain deflation with a different number of deflation vectors on every rank (all >= 1), strips
+// and irregular partitions / couplings, so that the index of a neighbour in the receive list differs from its rank
+static void mode_sdd(uint64_t seed, bool th) {
+    vr::rng g(seed + 123);
+    int reps = vr::env_int("VERIF_REPS", th ? 8 : 2);
+    for (int r = 0; r < reps; ++r) {
+        for (int kind = 0; kind < 3; ++kind) {
+            std::shared_ptr<crsd> A = kind == 0 ? vr::poisson2d(g.range(40, 70), 1)                 // 1-D chain in strips
+                                    : kind == 1 ? vr::poisson2d(g.range(8, 14), g.range(8, 12), g.range(1, 2), 1)
+                                                : vr::random_mmatrix(g, g.range(60, 140), 0.04, 3, 1, true);   // long-range couplings: any rank may neighbour any other
+            int n = A->nrows;
+            std::vector<double> f(n); for (auto &v : f) v = g.range(-5, 5); f[0] += 1;
+            const char *fam = kind == 0 ? "chain" : kind == 1 ? "poisson" : "spd_m";
+            for (int style = 0; style < 2; ++style) {
+                // style 0: balanced strips; style 1: irregular cuts (every subdomain keeps >= 4 rows)
+                part rp = style == 0 ? thin_part(g, n, 0) : nonempty_part(g, n, 4);
+                for (int pattern = 4; pattern <= 6; ++pattern) GUARD(op_solve_sdd(*A, rp, f, pattern, fam));
+            }
+        }
     }
 }
 
@@ -769,6 +810,7 @@ int main(int argc, char **argv) {
     if (mode == "aggr") mode_aggr(seed, th);
     else if (mode == "amg") mode_amg(seed, th);
     else if (mode == "solve") mode_solve(seed, th);
+    else if (mode == "sdd") mode_sdd(seed, th);
     dv::barrier();
     if (R == 0) { vr::obj o; o.str("e", "End"); dv::emit(o.done()); }
     return 0;
